@@ -99,13 +99,14 @@ NoColonInUsers(pairs) == \A i \in 1..Len(pairs) : \A j \in 1..Len(pairs[i].u) : 
 (***************************************************************************)
 Algs       == {"HS256", "HS384", "HS512"}
 SKeys      == {"same", "other", "near", "empty"}
-HAlgs      == Algs \cup {"none", "absent", "lower", "num", "null", "arr"}
+HAlgs      == Algs \cup {"none", "absent", "lower", "space", "num", "null", "arr"}
 Typs       == {"JWT", "absent", "jwt", "other", "num"}
 Ctys       == {"absent", "JWT", "other"}
 HShapes    == {"issue", "algfirst", "extra", "ws"}
 ClaimKinds == {"absent", "past", "future", "pastf", "futuref", "neg", "big", "str", "null", "junk"}
 Pays       == {"obj", "nested", "arr", "str", "num", "notjson", "empty"}
-PosMuts    == {"flip1", "flip2", "flip3", "del1", "del2", "del3", "ins1", "ins2", "ins3"}   \* at EVERY position of part p
+PosMuts    == {"flip1", "flip2", "flip3", "del1", "del2", "del3", "ins1", "ins2", "ins3",    \* at EVERY position of part p
+               "flipall1", "flipall2", "flipall3"}                                          \* .. with EVERY other symbol
 Muts       == {"none"} \cup PosMuts \cup {"trunc", "extra", "siglen", "sigstd", "sigpad", "sigbits", "parts", "garbage"}
 Vias       == {"std", "nohdr", "wronghdr", "basic", "token", "lcscheme", "ucscheme", "nospace", "twospace", "tab", "rawff"}
 Methods    == {"GET", "POST", "HEAD", "OPTIONS"}
@@ -115,8 +116,14 @@ ClaimRel(k) == CASE k = "absent" -> "none"
                  [] k \in {"past", "pastf", "neg"} -> "before"      \* integer, non-integer number, negative number
                  [] k \in {"future", "futuref", "big"} -> "after"   \* integer, non-integer number, number >= 2^64
                  [] OTHER -> "malformed"                            \* not a JSON number: the text does not say
-ExpAdmits(k)    == CASE ClaimRel(k) \in {"none", "after"}  -> "yes" [] ClaimRel(k) = "before" -> "no" [] OTHER -> "unspecified"
-NotYetAdmits(k) == CASE ClaimRel(k) \in {"none", "before"} -> "yes" [] ClaimRel(k) = "after"  -> "no" [] OTHER -> "unspecified"
+\* Does the claim admit the current time?  "yes" only for an absent claim or a plain non-negative integer on the right
+\* side of now; "no" for any JSON number on the wrong side; "unspecified" for a number on the right side that is not a
+\* plain integer below 2^64 (an implementation may refuse it as malformed) and for values that are not numbers.
+Plain(k) == k \in {"past", "future"}
+ExpAdmits(k)    == CASE ClaimRel(k) = "none" -> "yes" [] ClaimRel(k) = "before" -> "no"
+                     [] ClaimRel(k) = "after" -> (IF Plain(k) THEN "yes" ELSE "unspecified") [] OTHER -> "unspecified"
+NotYetAdmits(k) == CASE ClaimRel(k) = "none" -> "yes" [] ClaimRel(k) = "after" -> "no"
+                     [] ClaimRel(k) = "before" -> (IF Plain(k) THEN "yes" ELSE "unspecified") [] OTHER -> "unspecified"
 HasClaims(tok)  == tok.pay \in {"obj", "nested"}      \* the harness writes claims into object payloads only
 ClaimVerdicts(tok) == IF HasClaims(tok) THEN {ExpAdmits(tok.exp), NotYetAdmits(tok.nbf), NotYetAdmits(tok.iat)} ELSE {"yes"}
 
